@@ -13,6 +13,7 @@
    homogeneous too), error outcomes included. *)
 From Coq Require Import ZArith Reals List Bool Lia Lra.
 From BL Require Import Base.Ops Base.PairOps Base.RoundedOps Model.Solver Proofs.Graded.
+From BL Require Proofs.C04Proofs.
 Import ListNotations.
 Set Default Proof Using "All".
 Local Open Scope R_scope.
@@ -409,3 +410,9 @@ Proof.
 Qed.
 
 End Similarity.
+
+(* the request transformer of the C04 statement is C04_linear's `with_src` applied to the cell-wise scaled source *)
+Lemma scale_source_is_with_src (m : RMode) (s : R) (a : args (RndOps m)) :
+  scale_source_args m s a
+  = C04Proofs.with_src (RndOps m) a (map (map (scl s)) (a_q0 _ a)) (scl s (a_p000 _ a)).
+Proof. reflexivity. Qed.
